@@ -36,11 +36,11 @@ tvars == <<vars, l, pend, wev>>
 
 Ev == Trace[l]
 Relaxed == cfg.relaxed
-NoHead == [num |-> -1, incl |-> {}, rev |-> {}, energy |-> << >>, basefee |-> <<0, 0, 0>>, bf |-> "0", gala |-> FALSE, synced |-> FALSE]
+NoHead == [num |-> -1, incl |-> {}, rev |-> {}, energy |-> << >>, basefee |-> <<0, 0, 0>>, bf |-> "0", id |-> "none", refresh |-> FALSE, gala |-> FALSE, synced |-> FALSE]
 
 Fresh(c) ==
   /\ cfg = c /\ txs = << >> /\ objs = << >> /\ byHash = << >> /\ byID = << >> /\ quota = << >> /\ cost = << >>
-  /\ pub = <<>> /\ head = NoHead /\ blocked = {} /\ tick = [seen |-> -1, added |-> FALSE] /\ w = WIdle
+  /\ pub = <<>> /\ head = NoHead /\ blocked = {} /\ tick = [seen |-> "none", added |-> FALSE] /\ w = WIdle
   /\ lastDrop = NoDrop /\ pend = << >> /\ wev = FALSE
 
 Init == /\ HWMInit /\ Len(Trace) >= 1 /\ Trace[1].e = "Reset" /\ Fresh(Trace[1].cfg) /\ l = 2
@@ -48,7 +48,7 @@ Init == /\ HWMInit /\ Len(Trace) >= 1 /\ Trace[1].e = "Reset" /\ Fresh(Trace[1].
 ResetEv ==
   /\ Ev.e = "Reset"
   /\ cfg' = Ev.cfg /\ txs' = << >> /\ objs' = << >> /\ byHash' = << >> /\ byID' = << >> /\ quota' = << >> /\ cost' = << >>
-  /\ pub' = <<>> /\ head' = NoHead /\ blocked' = {} /\ tick' = [seen |-> -1, added |-> FALSE] /\ w' = WIdle
+  /\ pub' = <<>> /\ head' = NoHead /\ blocked' = {} /\ tick' = [seen |-> "none", added |-> FALSE] /\ w' = WIdle
   /\ lastDrop' = NoDrop /\ pend' = << >> /\ wev' = FALSE
 
 TxEv ==
@@ -56,12 +56,12 @@ TxEv ==
   /\ txs' = Put(txs, Ev.h, Ev.tx)
   /\ UNCHANGED <<cfg, objs, byHash, byID, quota, cost, pub, head, blocked, tick, w, lastDrop, pend, wev>>
 
-HeadOf(r) == [num |-> r.num, incl |-> SeqSet(r.incl), rev |-> SeqSet(r.rev), energy |-> r.energy, basefee |-> r.basefee, bf |-> r.bf, gala |-> r.gala,
+HeadOf(r) == [num |-> r.num, incl |-> SeqSet(r.incl), rev |-> SeqSet(r.rev), energy |-> r.energy, basefee |-> r.basefee, bf |-> r.bf, id |-> r.id, refresh |-> r.refresh, gala |-> r.gala,
               synced |-> r.synced]
 HeadEv ==
   /\ Ev.e = "Head"
   /\ head' = HeadOf(Ev.hd)
-  /\ tick' = IF head.num = -1 THEN [tick EXCEPT !.seen = Ev.hd.num] ELSE tick    \* housekeeping reads the head once at start
+  /\ tick' = IF head.num = -1 THEN [tick EXCEPT !.seen = Ev.hd.id] ELSE tick    \* housekeeping reads the head once at start
   /\ UNCHANGED <<cfg, txs, objs, byHash, byID, quota, cost, pub, blocked, w, lastDrop, pend, wev>>
 
 BlockEv == Ev.e = "Block" /\ BlockAccounts(SeqSet(Ev.accts)) /\ UNCHANGED <<pend, wev>>
@@ -143,10 +143,14 @@ RemovedAsReported ==
   /\ (Ev.e = "remove" =>
         LET o == byHash[Ev.h] tx == txs[Ev.h] IN
         /\ Ev.o = o                                        \* identity of the removed object
-        /\ Ev.x = objs[o].flag /\ Ev.priced = objs[o].priced
+        /\ Ev.x = objs[o].flag
+        \* wash publishes the pricing of the object it is evaluating (lock-free, setPricing) BEFORE its eval event is emitted:
+        \* a RemoveByHash that falls into that window reports "priced" for an object whose eval event is still to come
+        /\ \/ Ev.priced = objs[o].priced
+           \/ Ev.priced /\ ~objs[o].flag /\ w.pc = "eval" /\ w.i <= Len(w.snap) /\ w.snap[w.i] = o
         /\ Ev.qo = At(quota', tx.org, 0)
         /\ (tx.dlg # None => Ev.qd = At(quota', tx.dlg, 0))
-        /\ (Ev.priced => Ev.pay = objs[o].pay /\ Ev.cost = objs[o].cost /\ Ev.cp = At(cost', objs[o].pay, 0)))
+        /\ (objs[o].priced => Ev.pay = objs[o].pay /\ Ev.cost = objs[o].cost /\ Ev.cp = At(cost', objs[o].pay, 0)))
 
 RemoveLockEv ==
   /\ Ev.e \in {"remove", "remove_miss"}
@@ -205,9 +209,9 @@ FillEndEv ==
 TickEv ==
   /\ Ev.e = "tick" /\ w.pc = "idle"
   /\ Ev.num = head.num
-  /\ (~Relaxed => /\ Ev.changed = (head.num # tick.seen)
+  /\ (~Relaxed => /\ Ev.changed = (head.id # tick.seen)
                   /\ Ev.ran = (head.synced /\ (Ev.forced \/ WashTrigger)))
-  /\ tick' = IF Ev.ran THEN tick ELSE [tick EXCEPT !.seen = Ev.num]
+  /\ tick' = IF Ev.ran THEN tick ELSE [tick EXCEPT !.seen = head.id]
   /\ UNCHANGED <<cfg, txs, objs, byHash, byID, quota, cost, pub, head, blocked, w, lastDrop, pend, wev>>
 
 SnapshotEv ==        \* ToTxObjects under the read lock
@@ -219,7 +223,8 @@ WashBeginEv ==       \* the evaluation order (a permutation of the snapshot) and
   /\ Ev.e = "wash_begin" /\ w.pc = "eval" /\ w.i = 1
   /\ SeqSet(Ev.os) = SeqSet(w.snap) /\ Len(Ev.os) = Len(w.snap)
   /\ Ev.num = w.hd.num
-  /\ w' = [w EXCEPT !.snap = Ev.os]
+  /\ (~Relaxed /\ ~w.forced => Ev.changed = w.chg)
+  /\ w' = [w EXCEPT !.snap = Ev.os, !.chg = Ev.changed]
   /\ UNCHANGED <<cfg, txs, objs, byHash, byID, quota, cost, pub, head, blocked, tick, lastDrop, pend, wev>>
 
 EvalEv ==
@@ -230,16 +235,16 @@ EvalEv ==
         /\ (e.r = "drop" => e.why = Ev.why)
         /\ WashEval(outlived, IF Ev.priced THEN Ev.prio ELSE <<>>)
         /\ (e.r = "exec" => /\ Ev.priced /\ Ev.cost = objs'[Ev.o].cost /\ Ev.pay = objs'[Ev.o].pay
-                            /\ (~objs[Ev.o].flag => Ev.cost = CostAt(txs[Ev.h], w.hd) /\ PrioOK(Ev.prio, Ev.h, w.hd)))
+                            /\ (~objs[Ev.o].flag => Ev.cost = CostAt(txs[Ev.h], w.hd)))
+        \* the priority is recomputed, also for objects that were executable before (kept, or refreshed by the rule)
+        /\ (cfg.checkprio /\ Ev.priced /\ e.r # "drop" => Ev.prio = EvalPrio(Ev.o))
   /\ UNCHANGED <<pend, wev>>
 
 WashErrorEv == Ev.e = "wash_error" /\ WashFail /\ UNCHANGED <<pend, wev>>
 
 WashLimitEv ==
   /\ Ev.e = "wash_limit"
-  /\ WashLimit
-  /\ w'.ex = Ev.ex
-  /\ [x \in 1..Len(w'.rm) |-> w'.rm[x].o] = Ev.rm
+  /\ WashLimitTo(Ev.ex, Ev.rm)        \* equal to the recomputed lists up to ties of (priority, time added)
   /\ UNCHANGED <<pend, wev>>
 
 CostOfEv ==          \* PendingCostOf under the read lock, then the energy test
